@@ -418,7 +418,10 @@ def run_family(ctx, exe, name, cfg, stats, private, workers=8, timeout=900, simu
         uniq = {}
         for rec in recs:
             uniq.setdefault(B.scenario_key(rec), rec)
-        recs = [uniq[k] for k in sorted(uniq, key=repr)]
+        # TLC's simulator evaluates the invariant on every successor it generates, so a few hundred traces already
+        # print ~10^5 scenarios; keep a deterministic subset
+        keys = sorted(uniq, key=lambda k: B.h32(ctx.seed, "sim", k))[:60000]
+        recs = [uniq[k] for k in sorted(keys, key=repr)]
     else:
         recs.sort(key=lambda rec: repr(B.scenario_key(rec)))
     if not recs:
@@ -557,7 +560,7 @@ def run(ctx):
         r = tlc_run(ctx, "Config/ConfigLines.tla", "ConfigLines_mc4.cfg", workers=8, timeout=1500)
         ctx.log("mc4: LineIndependent/InRange on %d specification states (%.0fs)" % (r.distinct, r.wall))
         cams += run_family(ctx, exe, "resolv4", "ConfigLines_gen4.cfg", stats, private, timeout=1500)
-        cams += run_family(ctx, exe, "sim8", "ConfigLines_sim.cfg", stats, private, timeout=900, simulate=600, depth=14)
+        cams += run_family(ctx, exe, "sim8", "ConfigLines_sim.cfg", stats, private, timeout=900, simulate=25, depth=14)
     trace_validation(ctx, cams, stats, private)
 
     import c15_strings
